@@ -5,6 +5,7 @@ import (
 	"math/rand"
 	"sort"
 
+	mavl "github.com/33cn/chain33/system/store/mavl/db"
 	"verif/harness/core"
 )
 
@@ -194,4 +195,44 @@ func bandHeights(band int) []int {
 		}
 	}
 	return out
+}
+
+// memdbProbe: one short linear history (odd heights: Tree.Save starts no background run for
+// pruneHeight 2) on the memdb backend with an explicit pruning run under recover. Prints
+// {"result": "ok" | "panic: ..."}; always exit 0. The registered check runs on LevelDB; this
+// probe only documents why memdb is not exercised.
+func memdbProbe(env *core.Env, args []string) int {
+	env.Opts["db"] = "mem"
+	env.Opts["ph"] = "2"
+	d := &drv{}
+	b := &core.Behaviour{ID: "memdb-probe", Steps: []core.Step{{"op": "x", "ws": []any{float64(0), float64(0)}}}}
+	if err := d.Reset(env, b); err != nil {
+		fmt.Println(`{"result":"reset failed"}`)
+		return 0
+	}
+	defer d.Close()
+	res := "ok"
+	func() {
+		defer func() {
+			if r := recover(); r != nil {
+				res = "panic: " + fmt.Sprint(r)
+			}
+		}()
+		steps := []core.Step{
+			{"op": "Commit", "c": float64(0), "h": float64(1), "ws": []any{float64(1), float64(1)}},
+			{"op": "Commit", "c": float64(1), "h": float64(3), "ws": []any{float64(2), float64(0)}},
+			{"op": "Commit", "c": float64(3), "h": float64(5), "ws": []any{float64(1), float64(2)}},
+			{"op": "Commit", "c": float64(5), "h": float64(7), "ws": []any{float64(2), float64(1)}},
+		}
+		for _, s := range steps {
+			s["chk"] = []any{}
+			if ret, _, err := d.Apply(s); err != nil || ret != "ok" {
+				res = fmt.Sprintf("commit failed: %v %v", ret, err)
+				return
+			}
+		}
+		mavl.PruningTree(d.db, 7, d.cfg)
+	}()
+	fmt.Printf("{\"result\":%q}\n", res)
+	return 0
 }
